@@ -85,7 +85,7 @@ def table_receive(chk: Check, repo: Repo) -> None:
     chk.count("receive_cells", cells)
     # writers of the receive counter
     ws = [w for w in attr_writes(repo, "_sequence_number_received", include_mutators=False)]
-    chk.floor("receive counter writers", len(ws), 3)
+    chk.floor("receive counter writers", len(ws), 2)
     for w in ws:
         v = repo.fold(w.stmt.value, w.func.module, w.func.cls) if hasattr(w.stmt, "value") else NOFOLD
         ok = (w.func.qualname in ("SecureSession.__init__", "SecureSession.connect") and v == -1) or w.func.qualname == "SecureSession.handle_knxipframe"
@@ -176,7 +176,7 @@ def table_send(chk: Check, repo: Repo) -> None:
         v = repo.fold(w.stmt.value, w.func.module, w.func.cls) if hasattr(w.stmt, "value") else NOFOLD
         ok = (w.func.name in ("__init__", "connect") and v == 0) or w.func.name == "get_sequence_information"
         chk.ob("send-counter-writer", w.func.site(w.stmt), ok, f"`{canon(w.stmt)}` in {w.func.qualname}", key=f"txw|{w.func.name}|{canon(w.stmt)}")
-    chk.floor("send counter writers", len(ws), 3)
+    chk.floor("send counter writers", len(ws), 2)
     # each wrapped frame consumes exactly one sequence number
     ef = repo.func(M, "_IPSecureTransportLayer.encrypt_frame")
     chk.unit(ef)
